@@ -40,6 +40,23 @@ pub fn build(t: &Value) -> BoxSource {
           rp["name"].as_str(),
           enforce,
         );
+        // observers called between mutating calls (C05 / C14 histories)
+        if let Some(th) = rp["then"].as_array() {
+          for h in th {
+            match h.as_str().unwrap_or("") {
+              "source" => {
+                let _ = r.source();
+              }
+              "size" => {
+                let _ = r.size();
+              }
+              "map" => {
+                let _ = r.map(&MapOptions::default());
+              }
+              _ => {}
+            }
+          }
+        }
       }
       r.boxed()
     }
